@@ -137,7 +137,8 @@ func scenario(c cfg) vrt.Scenario {
 		}
 		if o.Cost == 0 {
 			want := 1 + int((c.length-1)/c.interval) // ticks strictly before the deadline
-			if evals != want {
+			tie := c.length%c.interval == 0               // a tick due exactly at the deadline may or may not be served
+			if evals != want && !(tie && evals == want+1) {
 				o.Fail("C09/cadence", "skipped-or-extra-on-default-schedule", fmt.Sprintf("%d evaluations in %s with interval %s, want %d", evals, c.length, c.interval, want))
 			}
 			if w.started+dropped != sum {
